@@ -221,7 +221,6 @@ func (fi fileInfo) ModTime() time.Time { return time.Time{} }
 func (fi fileInfo) IsDir() bool        { return false }
 func (fi fileInfo) Sys() any           { return nil }
 
-
 // FileNT is a File without Truncate: an io.ReaderAt + io.Writer + io.WriterAt only,
 // like a caller-supplied buffer type that cannot shrink.
 type FileNT struct{ f *File }
